@@ -260,6 +260,13 @@ def shard_main(spec: dict) -> int:
     ctx = Ctx(spec["prop"], spec["tier"], spec["seed"], spec["shard"], spec["nshards"], tmp, spec.get("params", {}))
     status = "ok"
     err = None
+    reach = None
+    if os.environ.get("PV_REACH", "1") != "0":
+        from pv.mon.reach import Reach
+
+        reach = Reach(str(repo_root()))
+        if not reach.install():
+            reach = None
     try:
         mod.run_shard(ctx)
     except CaseTimeout:
@@ -269,6 +276,9 @@ def shard_main(spec: dict) -> int:
     res = ctx.result()
     res["status"] = status
     res["error"] = err
+    if reach is not None:
+        reach.uninstall()
+        res["reach"] = reach.result()
     Path(spec["out"]).write_text(json.dumps(res))
     shutil.rmtree(tmp, ignore_errors=True)
     return 0
@@ -457,6 +467,17 @@ def run_check(prop: str, tier: str, seed: int) -> int:
     }
     if notes:
         coverage["notes"] = notes
+    try:
+        from pv.mon.reach import summarize
+
+        anchors = []
+        for ln in (VERIF / "properties.jsonl").read_text().splitlines():
+            if ln.strip() and json.loads(ln)["id"] == prop:
+                anchors = json.loads(ln).get("anchors", {}).get("files", [])
+        if any(r and r.get("reach") for r in results):
+            coverage["reach"] = summarize(str(repo_root()), [r.get("reach") if r else None for r in results], anchors)
+    except Exception as ex:  # informational only
+        coverage["reach"] = {"error": repr(ex)[:300]}
     ev = {
         "property_id": prop, "tier": tier, "seed": int(seed), "level": LEVEL, "coverage": coverage,
         "assumptions": list(getattr(mod, "ASSUMPTIONS", [])), "wall_s": wall, "violations": int(vcount),
